@@ -237,6 +237,9 @@ def check(chk):
     _settings_not_mutated(chk, repo)
     _start_order_and_fadeout_timer(chk, repo)
     _subscription_play_stop_same_key(chk, repo)
+    # a show's lights are left as if it had never run also on the hardware: the update shortcuts of the light read the remembered fade correctly (shared with C09)
+    from sa.rules.c09 import _suppression as _c09_suppression
+    _c09_suppression(chk, repo)
 
     # ------------------------------------------------------------ FLOW-8
     lp = repo.cls(LP, "LightPlayer")
@@ -765,6 +768,7 @@ def _token_cache(chk, repo):
 def battery():
     from sa.battery import M
     return [
+        M("remembered fade compared by its start colour", "mpf/devices/light.py", "target_color == self._last_fade_target[2]", "target_color == self._last_fade_target[0]", "SUPP-1"),
         M("conditional show stopped under the subscription key", "mpf/config_players/show_player.py", "                self._stop(show_key, instance_dict, show.name, show_settings, False, None, {})", "                self._stop(key, instance_dict, show.name, show_settings, False, None, {})", "SUBS-17"),
         M("step time rounded to ms", SH, "        time_to_next_step = self.show_steps[self.current_step_index]['duration'] / self.show_config.speed", "        time_to_next_step = round(self.show_steps[self.current_step_index]['duration'] / self.show_config.speed, 3)", "DOM-31"),
         M("relative scheduling", SH, "            self._delay_handler = self.machine.clock.loop.call_at(when=self.next_step_time,\n                                                                  callback=self._run_next_step)", "            self._delay_handler = self.machine.clock.loop.call_later(time_to_next_step, self._run_next_step)", "DOM-31"),
